@@ -120,6 +120,10 @@ def follow_c10(f):
     return q.startswith('rkcommon::')
 
 
+def norm_str_ref(ct):
+    return ct.replace('const ', '').replace('&', '').strip() in ('std::basic_string<char>', 'std::string')
+
+
 def mk_se(tu):
     return SymExec(tu, own=lambda f: f['q'].startswith('rkcommon::'), inline_stmt=follow_c10, recognise_search=True, recognise_loops=True)
 
@@ -1296,12 +1300,14 @@ def check_paramobj(ctx, tu, tag=''):
                             return (idx[2], o[2])
         return None
 
-    def eval_finder(flag):
-        """classify the paths of findParam(name, flag): list of (kind, why) problems, list of undecided"""
+    def eval_finder(flag, fn=None):
+        """classify the paths of findParam(name, flag) - or of a one-argument helper fn(name) against the same specification: list of
+        (kind, why) problems, list of undecided"""
         probs, und = [], []
-        K = ('param', 0, finder['params'][0].get('name') or '')
+        fn_ = fn or finder
+        K = ('param', 0, fn_['params'][0].get('name') or '')
         try:
-            paths = paths_of(se, finder, args=(K, ('const', flag)))
+            paths = paths_of(se, fn_, args=(K, ('const', flag)) if fn is None else (K,))
         except Unsupported as e:
             return [], [('paths', str(e))]
         for p in paths:
@@ -1412,6 +1418,24 @@ def check_paramobj(ctx, tu, tag=''):
                 ctx.undecided(R5, inst, why, floc)
         else:
             ctx.ok(R5, inst, 'found -> the found parameter; missing -> %s' % ('append Param(name), return it' if flag else 'nullptr, list untouched'), floc)
+
+    # private one-argument helpers that meet the specification of findParam(name, false) / findParam(name, true) (the finder split into
+    # a pure lookup and a find-or-add, called directly by the accessors): their calls are read as the findParam call they stand for
+    helpers = []
+    for h in fns:
+        if h is finder or h.get('access') != 'private' or len(h.get('params', [])) != 1 or not h['fty'].split('(')[0].strip().endswith('Param *') \
+                or norm_str_ref(h['params'][0]['ct']) is False:
+            continue
+        for flag in (0, 1):
+            pr_, un_ = eval_finder(flag, fn=h)
+            if not pr_ and not un_ and finder_ok.get(flag):
+                helpers.append((h, flag))
+                break
+    if helpers:
+        for h, flag in helpers:
+            se.call_alias[h['id']] = (FIND, (('const', flag),))
+        keep_ = {finder['id']} | {h['id'] for h, _f in helpers}
+        se._paths = {k_: v_ for k_, v_ in se._paths.items() if k_[0] in keep_}
 
     def find_calls(p):
         out = []
